@@ -892,13 +892,13 @@ impl<S: VhostUserBackendReqHandler> BackendReqHandler<S> {
         // If Bit 8 is unset, the data must contain a file descriptor.
         let has_fd = (msg.value & 0x100u64) == 0;
 
-        let file = take_single_file(files);
-
-        if has_fd && file.is_none() || !has_fd && file.is_some() {
+        // Exactly one file must be attached when the flag is clear, none at all when it is set.
+        let nfiles = files.as_ref().map_or(0, |f| f.len());
+        if has_fd && nfiles != 1 || !has_fd && nfiles != 0 {
             return Err(Error::InvalidMessage);
         }
 
-        Ok((msg.value as u8, file))
+        Ok((msg.value as u8, take_single_file(files)))
     }
 
     fn check_state(&self) -> Result<()> {
